@@ -17,17 +17,18 @@ What is PROVED here, for all states / requests / oracles (no size bound):
     revision of the code, every oracle and every crash point — hence after every history;
   * a (re)start of the process on ANY file whose tasks are enumerated changes nothing stored and executes exactly the
     enabled tasks whose start succeeds;
-  * along every deviation-free history of create / delete / template create / template delete / restart requests the
-    model's view IS the catalogue spec (accepted ⇒ declared effect, rejected ⇒ nothing, executing ⇔ enabled ∧ started);
+  * along EVERY deviation-free history of create / update / delete / template create / update / delete / restart
+    requests the model's view IS the catalogue spec (accepted ⇒ declared effect, rejected ⇒ nothing, executing ⇔
+    enabled ∧ started);
   * an accepted template update re-synchronises exactly the tasks created from the template (all), one rejected by
     validation none: all-or-none for every answer other than 500.
 What is proved by counterexample (`decide` on the model, replayed on the real code by corpus/C14/*.ops): the two
 repaired defects on the snapshot order, and the four recorded findings on today's code (incl. the 500 case of
 all-or-none).
-What is only STATED (`…_stmt`, tied by the correspondence run and the spec oracle only): the whole-history
-refinement with task update and template update requests in the history (ingredients proved, see the statement).
+What is only STATED (`…_stmt`): the two statements that are FALSE of today's code (rejected-leaves-catalogue and
+all-or-none for answers 500), kept next to their counterexamples.
 -/
-import Kap.Proofs.C14Ref
+import Kap.Proofs.C14Full
 namespace Kap.Props.C14
 open Kap.C14
 
@@ -114,41 +115,37 @@ theorem delete_removes_and_stops (w : World) (id : String) (h : ExecInv w) :
 /-! ### The API shows the last accepted definitions; executing ⇔ enabled ∧ started -/
 
 /-- **Refinement along whole histories** (`api_shows_last_accepted` + `executing_iff_enabled_and_started`): run the
-model and the catalogue spec in lockstep over ANY history of create / delete / template create / template delete /
-restart requests — accepted or rejected, any oracle — in which no recorded deviation occurs (`AllOK`: no crash
-point, no refused start of a created task, no delete of a template that tasks were created from). Then after every
-step the model's view IS the spec catalogue: the tasks shown are exactly the accepted definitions (an accepted
-request has its declared effect, a rejected one none), the templates likewise, a task is executing iff it is enabled
-and its most recent start attempt succeeded, the association table is accurate, the ID index enumerates the tasks.
-By induction over the history from per-handler refinement lemmas. Task update and template update requests are NOT
-covered here (`covered`): for them see `executing_implies_enabled`, `rejected_request_leaves_no_trace`,
-`template_update_accepted_changes_all`; the statement including them is `api_shows_last_accepted_stmt`. -/
-theorem api_shows_last_accepted_partial (env : Env) (reqs : List Req) (hok : AllOK env reqs ({}, {})) :
+model and the catalogue spec in lockstep over ANY history of create, update (script, dbrps, vars, id, template,
+status), delete, template create / update / delete and restart requests — accepted or rejected, any oracle — in which
+no recorded deviation occurs (`AllFree`: no crash point, no refused start on a create / update, no delete of a
+template that tasks were created from, no template update answered 500). Then after every step the model's view IS
+the spec catalogue: the tasks shown are exactly the accepted definitions (an accepted request has its declared
+effect, a rejected one none), the templates likewise, a task is executing iff it is enabled and its most recent start
+attempt succeeded, the association table is accurate, the ID index enumerates the tasks, whatever executes is stored
+and enabled. By induction over the history from per-handler refinement lemmas (closed forms of every handler
+sub-step; inductions over the template-update loop). -/
+theorem api_shows_last_accepted (env : Env) (reqs : List Req) (hok : AllFree env reqs ({}, {})) :
     RInv (runBoth env reqs ({}, {})).1 (runBoth env reqs ({}, {})).2 :=
-  refine_history env reqs {} {} RInv.init hok
+  refine_history_full env reqs {} {} RInv.init hok
 
 /-- One step, from any state satisfying the invariant (the induction step of the theorem above). -/
 theorem api_shows_last_accepted_step (env : Env) (w : World) (c : Cat) (r : Req) (h : RInv w c)
-    (hs : StepOK env c r (step Variant.fixed env r.fail r.cut w r.op).2) :
+    (hs : StepFree env c r (step Variant.fixed env r.fail r.cut w r.op).2) :
     RInv (step Variant.fixed env r.fail r.cut w r.op).1
       (specStep env r.fail c r.op (step Variant.fixed env r.fail r.cut w r.op).2) :=
-  refine_step env w c r h hs
+  refine_step_full env w c r h hs
 
-/-- The same statement with task update and template update requests allowed in the history (clause `cov` dropped,
-template updates answered 500 excluded) — NOT proved. Proved ingredients for the two missing handlers: the resolution
-and validation of an update yield exactly the spec's `updateDef` (`updateScript_some`, `updateRecord_eq_def`), the
-closed forms of its sub-steps (`storeDefinition_view`, `restartRenamed_view`, `applyStatus_view`), the association
-invariant through an update (`AssocInv.update`), the task effect of an accepted template update
-(`template_update_accepted_changes_all`); missing: the executing-set case analysis of update and the association /
-executing-set effect of the template update loop. -/
-def api_shows_last_accepted_stmt : Prop :=
-  ∀ (env : Env) (w : World) (c : Cat) (r : Req), RInv w c →
-    r.cut = none →
-    devStartFail env r.fail c r.op (step Variant.fixed env r.fail r.cut w r.op).2 = false →
-    (∀ id, r.op = .tdelete id → ∀ i t, c.tasks i = some t → t.tmpl ≠ id) →
-    (∀ id n s, r.op = .tupdate id n s → id ≠ "" ∧ (step Variant.fixed env r.fail r.cut w r.op).2 ≠ .fail) →
-    RInv (step Variant.fixed env r.fail r.cut w r.op).1
-      (specStep env r.fail c r.op (step Variant.fixed env r.fail r.cut w r.op).2)
+/-- What the invariant says about the executing set, spelled out: **a task is executing if and only if it is enabled
+and its (most recent) start succeeded**. -/
+theorem executing_iff_enabled_and_started (w : World) (c : Cat) (h : RInv w c) (i : String) :
+    w.exec i = true ↔ ∃ t, w.store.tasks i = some t ∧ t.enabled = true ∧ c.started i = true := by
+  have he := h.d.exec i
+  have ht : w.store.tasks = c.tasks := h.d.tasks
+  simp only [view_exec, Cat.executing] at he
+  rw [he, ← ht]
+  cases w.store.tasks i with
+  | none => simp
+  | some t => simp
 
 /-- Rejected requests at full strength (answers 500 included) — FALSE of today's code
 (`start_failure_leaves_enabled_not_executing`, `rollback_keeps_new_dbrps_and_template`); proved for 400/404 as
@@ -296,23 +293,31 @@ theorem template_delete_orphans_tasks :
 example : (handle Variant.fixed demoEnv [] (run Variant.fixed demoEnv (hijack.take 1))
     (.create "a" { tmpl := "T", dbrps := ["db.rp"], vars := "v3" })).2 = .bad := by decide
 
-/-- `AllOK` is met by a non-trivial history (accepted and rejected requests, an enabled task, a restart), and the
-theorem then gives the catalogue one expects. -/
+/-- `AllFree` is met by a non-trivial history (accepted and rejected requests, an enabled templated task, a rename
+while enabled, a template update that re-synchronises it, a restart), and the theorem then gives the catalogue one
+expects. -/
 def lifecycle : List Req :=
   [ ⟨.tcreate "T" "t0", [], none⟩,
     ⟨.create "a" { tmpl := "T", dbrps := ["db.rp"], status := some true }, [], none⟩,
     ⟨.create "a" { script := "s0", dbrps := ["db.rp"] }, [], none⟩,     -- rejected: the ID exists
+    ⟨.update "a" { newId := "b" }, [], none⟩,                            -- rename while enabled
+    ⟨.tupdate "T" "" "td", [], none⟩,                                   -- re-synchronises b
     ⟨.restart, [], none⟩,
-    ⟨.delete "a", [], none⟩ ]
+    ⟨.delete "b", [], none⟩ ]
 
-example : AllOK demoEnv lifecycle ({}, {}) := by
-  refine ⟨⟨rfl, by decide, (fun id h => by cases h), rfl⟩, ⟨rfl, by decide, (fun id h => by cases h), rfl⟩,
-    ⟨rfl, by decide, (fun id h => by cases h), rfl⟩, ⟨rfl, by decide, (fun id h => by cases h), rfl⟩,
-    ⟨rfl, by decide, (fun id h => by cases h), rfl⟩, trivial⟩
+example : AllFree demoEnv lifecycle ({}, {}) := by
+  refine ⟨⟨rfl, by decide, (fun id h => by cases h), (fun id n s h => by cases h)⟩,
+    ⟨rfl, by decide, (fun id h => by cases h), (fun id n s h => by cases h)⟩,
+    ⟨rfl, by decide, (fun id h => by cases h), (fun id n s h => by cases h)⟩,
+    ⟨rfl, by decide, (fun id h => by cases h), (fun id n s h => by cases h)⟩,
+    ⟨rfl, by decide, (fun id h => by cases h), (fun id n s h => by cases h; exact ⟨by decide, by decide⟩)⟩,
+    ⟨rfl, by decide, (fun id h => by cases h), (fun id n s h => by cases h)⟩,
+    ⟨rfl, by decide, (fun id h => by cases h), (fun id n s h => by cases h)⟩, trivial⟩
 
-example : ((runBoth demoEnv (lifecycle.take 4) ({}, {})).2.tasks "a").map (·.script) = some "t0" ∧
-    (runBoth demoEnv (lifecycle.take 4) ({}, {})).2.executing "a" = true ∧
-    (runBoth demoEnv lifecycle ({}, {})).2.tasks "a" = none := by decide
+example : ((runBoth demoEnv (lifecycle.take 6) ({}, {})).2.tasks "b").map (fun t => (t.script, t.dbrps)) = some ("td", ["pdb.prp"]) ∧
+    (runBoth demoEnv (lifecycle.take 6) ({}, {})).2.executing "b" = true ∧
+    (runBoth demoEnv (lifecycle.take 6) ({}, {})).2.tasks "a" = none ∧
+    (runBoth demoEnv lifecycle ({}, {})).2.tasks "b" = none := by decide
 
 /-- The hypotheses of the restart / delete theorems are met by a reachable, non-empty state, and a restart there
 runs exactly the enabled task. -/
